@@ -178,6 +178,8 @@ class Ctx:
         self.callstyle = "as-written"   # or "positional": keyword arguments are passed by position where the signature allows
         self.cleanups = []      # callables run after the scenario, whatever its outcome (e.g. StepGate.abandon)
         self.in_step = False    # True while the harness thread operates inside a parked timestep (simkit.stepgate)
+        self.gc_at = ()         # operation indexes before which the garbage collector runs (automatic collection is off then)
+        self.ncalls = 0
         self.hop = None         # ThreadHop: operations are issued from several caller threads, strictly one at a time
         self.hop_rng = None
 
@@ -213,6 +215,10 @@ class Ctx:
         that reach the package from a file, a computation or another process are never the object it stored earlier,
         so nothing may hinge on `is` where equality is meant (CPython's small-int / literal sharing hides that)."""
         self.steps += 1
+        self.ncalls += 1
+        if self.gc_at and self.ncalls in self.gc_at:
+            import gc
+            gc.collect()
         if self.freshen:
             a = tuple(fresh(x) for x in a)
             k = {n: fresh(x) for n, x in k.items()}
@@ -326,6 +332,16 @@ def execute(mod, scenario, keep_trace=False):
     if isinstance(scenario, dict) and scenario.get("callstyle") == "positional":
         ctx.callstyle = "positional"
         ctx.probe("keyword_arguments_passed_by_position")
+    if isinstance(scenario, dict) and scenario.get("gc_at"):
+        # garbage collection is an event of the schedule: the automatic (allocation-count driven) collector is switched off for
+        # the run and full collections happen right before the operations the scenario names
+        import gc
+        gc.collect()
+        gc.disable()
+        ctx.cleanups.append(gc.enable)
+        ctx.gc_at = frozenset(int(i) for i in scenario["gc_at"])
+        ctx.fault("lifetime.collector_runs", len(ctx.gc_at))
+        ctx.probe("garbage_collection_scheduled_by_the_scenario")
     if isinstance(scenario, dict) and scenario.get("threads"):
         th = scenario["threads"]
         ctx.hop = ThreadHop(int(th["n"]))
@@ -442,6 +458,9 @@ def generate(mod, verif_seed, index, tier):
         # (strictly one at a time, the choice drawn from the seed below) - sequential use from several threads is ordinary use
         r_ = random.Random(run_seed(verif_seed, mod.PROPERTY + "/threads", index))
         sc["threads"] = {"n": r_.randint(1, 3), "seed": r_.randrange(2 ** 32)} if r_.random() < 0.15 else None
+    if isinstance(sc, dict) and "gc_at" not in sc and getattr(mod, "SCHEDULED_GC", True):
+        r_ = random.Random(run_seed(verif_seed, mod.PROPERTY + "/gc", index))
+        sc["gc_at"] = sorted({r_.randint(1, 120) for _ in range(r_.randint(1, 3))}) if r_.random() < 0.1 else None
     # round-trip through canonical JSON: what is executed is exactly what a replay file holds
     return json.loads(canon(sc))
 
